@@ -119,17 +119,53 @@ def _mk_term(rng, kind, i, j, ctx, allowed_dead=None):
     return {'t': 'ref', 'to': A[j]}
 
 
+def gen_fail_ladder(rng, seed):
+    """A two-wide ladder d levels deep (2^d re-converging paths in the
+    static precedents) whose top cell fails *before* it evaluates anything:
+    the failure must be reported without walking the ladder."""
+    d = rng.randint(12, 20)
+    sheets = ['Sheet1', 'S2']
+    addrs = _layout(2 * d, 2, 2 * d, sheets)
+    nodes = []
+    for i in range(2 * d):
+        lvl = i // 2
+        terms = []
+        if lvl:
+            terms = [{'t': 'ref', 'to': addrs[2 * (lvl - 1)]},
+                     {'t': 'ref', 'to': addrs[2 * (lvl - 1) + 1]}]
+        nodes.append({'a': addrs[i], 'k': rng.randint(0, 9), 'terms': terms,
+                      'fail': None})
+    top = 2 * d - 1
+    nodes[top]['fail'] = rng.choice(['nosuch', 'nosuch', 'boom', 'oserr'])
+    nodes[top]['fail_first'] = True
+    e = addrs[top]
+    world = {'class': 'fail_ladder', 'info': {'class': 'fail_ladder',
+             'depth': d, 'entry_index': top,
+             'fail_kind': nodes[top]['fail'], 'fail_at': top},
+             'nodes': nodes, 'sheets': sheets, 'switches': {}, 'padding': 0,
+             'decoy': False, 'evaluator_first': False, 'range_names': {},
+             'names': {}, 'qualify': False, 'fail_on': 1}
+    ops = [{'op': 'eval', 'target': e},
+           {'op': 'eval', 'target': f'{sheets[0]}!ZZ2'},
+           {'op': 'eval', 'target': e},
+           {'op': 'eval', 'target': addrs[3]}]
+    return {'property': ID, 'seed': seed, 'knobs': {}, 'world': world,
+            'ops': ops}
+
+
 def gen_case(seed, tier='quick'):
     rng = random.Random(seed)
     cls = rng.choices(
         ['acyclic', 'chain_ok', 'selfloop', 'cycle', 'longcycle', 'fail',
-         'cycle_fail', 'dead_cycle', 'switch_cycle'],
-        [24, 8, 8, 26, 4, 16, 5, 3, 6])[0]
+         'cycle_fail', 'dead_cycle', 'switch_cycle', 'fail_ladder'],
+        [24, 8, 8, 26, 4, 15, 5, 3, 6, 3])[0]
+    if cls == 'fail_ladder':
+        return gen_fail_ladder(rng, seed)
     plain = cls in ('chain_ok', 'longcycle')
     if cls == 'chain_ok':
         n = rng.choice([1, 2, 3, 5, 10, 20, 40, 70, 100, rng.randint(1, 100)])
     elif cls == 'longcycle':
-        n = rng.randint(17, 120)
+        n = rng.randint(17, 200)
     elif cls == 'fail':
         n = rng.randint(1, 26)
     else:
@@ -142,6 +178,9 @@ def gen_case(seed, tier='quick'):
     two = (not plain) and n >= 4 and rng.random() < 0.3
     split = rng.randint(2, n - 1) if two else n
     sheets = list(rng.choice(SHEET_PAIRS))
+    if not two and rng.random() < 0.08:
+        # a name with a character that means something to string formatting
+        sheets[0] = rng.choice(['Plan%', 'Growth%s', '100%d', 'a{b}'])
     addrs = _layout(n, W, split, sheets)
     ctx = {'addrs': addrs, 'names': {}, 'n': n, 'W': W, 'split': split,
            'sheets': sheets}
@@ -296,7 +335,8 @@ def gen_case(seed, tier='quick'):
              'range_names': range_names,
              'names': ctx['names'],
              'qualify': ('loose' if two and rng.random() < 0.3
-                         else bool(two or rng.random() < 0.3)),
+                         else bool(two or (rng.random() < 0.3 and
+                                           sheets[0].isalnum()))),
              'fail_on': 1}
     ops = []
     e = addrs[entry]
@@ -401,7 +441,12 @@ def render(world):
                 parts.append(
                     f"IF(TRUE,{live},{_ref(sheet, t['dead'], q, s0)})")
         body = '+'.join(parts)
-        if nd['fail'] == 'nosuch':
+        if nd.get('fail_first') and nd['fail'] not in (None, 'nosuch',
+                                                       'flaky'):
+            fn = 'BOOM()' if nd['fail'] == 'boom' \
+                else f"FAIL_{nd['fail'].upper()}()"
+            body = fn + '+' + body
+        elif nd['fail'] == 'nosuch':
             body = 'NOSUCH(1)+' + body
         elif nd['fail'] == 'boom':
             body = body + '+BOOM()'
@@ -700,7 +745,9 @@ def _run_case(case):
             flaky_armed = uf.fail_on is not None and \
                 uf.flaky_calls < uf.fail_on
             exp = expectation(g, addr, cells, flaky_armed)
-            if not exp['cyc_live'] and simple_paths(g, addr) >= 400:
+            fails_at_once = bool(g.nodes[addr].get('fail_first'))
+            if not exp['cyc_live'] and not fails_at_once and \
+                    simple_paths(g, addr) >= 400:
                 # exponential cost of a *successful* re-evaluating walk is
                 # not part of this property
                 bump('skipped_expensive')
